@@ -292,6 +292,33 @@ func unitsScaleAndWrap(c *core.Ctx) []core.Obligation {
 			}
 		})
 	}
+	// (arc-length-through-chord, after round-7 seed C17-r7m2: a polyline's segment length taken as
+	// ChordAngleBetweenPoints(a, b).Angle() in Interpolate while Length() and Uninterpolate use a.Distance(b)) the
+	// angle recovered from a chord angle is 2*asin(sqrt(d2)/2), which loses most of its precision as the points approach
+	// antipodal; Point.Distance uses atan2 and does not. An arc length that is accumulated along a polyline or compared
+	// with Length() is therefore never taken through a chord angle.
+	nchord := 0
+	for _, fn := range c.GeoFuncs() {
+		if fn.Pkg != nil && fn.Pkg.Pkg.Name() == "s1" {
+			continue
+		}
+		n := 0
+		core.AllInstrs(fn, func(in ssa.Instruction) {
+			call, ok := in.(*ssa.Call)
+			if !ok || core.StaticCallee(call) == nil || core.StaticCallee(call).Name() != "Angle" || len(call.Call.Args) != 1 || !isChordAngle(call.Call.Args[0].Type()) {
+				return
+			}
+			nchord++
+			src, ok := call.Call.Args[0].(*ssa.Call)
+			if !ok || core.StaticCallee(src) == nil || core.StaticCallee(src).Name() != "ChordAngleBetweenPoints" {
+				return
+			}
+			n++
+			obs = append(obs, core.Ob("R-UNITS", fmt.Sprintf("%s:arc-length-through-chord#%d", core.FuncName(fn), n), c.Pos(call.Pos()), core.FuncName(fn), core.Violated,
+				"the angle between two points is obtained as ChordAngleBetweenPoints(a, b).Angle(): the asin behind it loses precision as the points approach antipodal (about 1e-10 rad at 1e-6 from Pi), while Point.Distance (atan2) does not - a length measured this way disagrees with the same length measured by Length()/Distance(), and interpolating at a measured fraction no longer returns the point"))
+		})
+	}
+	obs = append(obs, core.Ob("R-UNITS", "arc-length-through-chord:scan", "-", "", core.Discharged, fmt.Sprintf("%d conversions ChordAngle.Angle() outside s1, none applied directly to ChordAngleBetweenPoints", nchord)))
 	obs = append(obs, core.Ob("R-UNITS", "scale-and-wrap:scan", "-", "", core.Discharged, fmt.Sprintf("%d ChordAngle products/quotients outside package s1; %d sums of a longitude and an angle examined", scaled, wrapped)))
 	return obs
 }
